@@ -15,10 +15,17 @@ REQUIRED_THEOREMS = ["Gv.Props.C01." + n for n in [
     "three_frames_same_count_iff",
     # names stay pairwise distinct unless the caller edits names
     "step_names_nodup", "run_names_nodup",
+    # Identical: on uniquely named containers = the same records in any order
+    "identical_iff_same_records", "identical_eq_identicalRows", "identicalRows_spec", "identical_symm", "identical_refl",
+    "identical_not_symmetric_with_repeated_names",
     # refinement: Go-shaped container = plain list reference model, all 39 operations, all histories
     "step_refines", "run_refines", "diffWithFirst_agrees_with_row_model", "replaceMatchChars_agrees_with_row_model",
     "step_diffFirst_is_row_model", "compress_empty_unchanged", "good_of_empty_bag", "good_of_empty_align", "obs_byName", "obs_idByName", "obs_length"]]
-LEVEL_TEXT = ("Lean theorems, all by induction over operation histories of any length and for arbitrary arguments: "
+LEVEL_TEXT = ("Lean theorems (Identical: `identical_iff_same_records` - on uniquely named containers `seqbag.Identical` decides exactly 'the two "
+              "row lists are permutations of each other', bytes compared as they are; `identicalRows_spec` - with repeated names: as many "
+              "rows and every row of the receiver is the first row of its name in the other; `identical_symm`, `identical_refl`, "
+              "`identical_not_symmetric_with_repeated_names`; model `Model/Identical.lean`, harness op `identical`), the others "
+              "all by induction over operation histories of any length and for arbitrary arguments: "
               "(1) refinement `step_refines` / `run_refines`: for each of the 39 operations of the history language (add under the "
               "three duplicate-name policies, ignore, clear, append, concat, rename, appendId, cleanNames, trimNames, trimAuto, sort, "
               "permute=ShuffleSequences, filter, dedup, rmSeqs/RemoveGapSeqs, translate, clone, sample, toUpper, toLower, replace, "
@@ -47,7 +54,9 @@ LEVEL_NOTE = ("Trusted: Lean kernel; harness/oracle/driver; the hand-written mod
               "capture group; ReplaceAllString with `$1` / `${1}` / `$0` templates, MatchString) which every run validates against the real package on "
               "generated (pattern, template, input) triples (harness op `regexsub`); a pattern outside the subset leaves the case undecided.")
 TECHNIQUE = "Lean 4 proof (refinement of the Go-shaped container to a plain-list reference model for all 39 operations, representation / rectangularity / distinct-names invariants, all by induction over histories) + differential correspondence"
-RULE = ("random histories of 1..12 (quick) / 1..40 (thorough) operations over alignments (0..5 rows x 0..8 columns) and "
+RULE = ("pairs of containers for Identical (equal, permuted, one residue / case / name changed, smaller, larger, a name given twice, "
+        "caller-made renames that make names collide on either side; both directions asked); "
+        "random histories of 1..12 (quick) / 1..40 (thorough) operations over alignments (0..5 rows x 0..8 columns) and "
         "sequence sets with ragged lengths, duplicate names, special characters in names, all three duplicate-name policies, "
         "boundary arguments; stratum around Unalign / RenameRegexp (empty object, one row, all-gap rows, names made equal before "
         "Unalign or by the expression, expressions that do not compile, then by-name accesses and alignment-only operations on the "
@@ -665,9 +674,73 @@ def gen_regexsub(rng, count):
     return cligen.regex_cases(rng, count)
 
 
+def gen_identical(rng, n):
+    """pairs of containers for `Identical`: equal, permuted, one residue / one name changed, case changed, different sizes,
+    the same name given twice (the container renames the second), caller-made renames that make names collide"""
+    for _ in range(n):
+        kind = rng.choice("AB")
+        alpha = rng.choice([1, 1, 0, 3])
+        nrows = rng.choice([0, 1, 2, 3, 4, 5, 6])
+        L = rng.randint(1, 6)
+        names = rng.sample(NAMES, min(len(NAMES), nrows))
+        x = [(nm, rseq(rng, "ACGTacgt-N", L if kind == "A" else rng.randint(1, 6))) for nm in names]
+        y = list(x)
+        mx = my = []
+        what = rng.choice(["equal", "permuted", "permuted", "residue", "case", "name", "smaller", "larger", "twice", "twice-both",
+                           "collide-x", "collide-y", "collide-both", "length"])
+        if what != "equal":
+            rng.shuffle(y)
+        if what == "residue" and y:
+            i = rng.randrange(len(y))
+            q = list(y[i][1])
+            j = rng.randrange(len(q))
+            q[j] = rng.choice([c for c in "ACGT-" if c != q[j]])
+            y[i] = (y[i][0], "".join(q))
+        elif what == "case" and y:
+            i = rng.randrange(len(y))
+            y[i] = (y[i][0], y[i][1].swapcase())
+        elif what == "name" and y:
+            i = rng.randrange(len(y))
+            y[i] = (rng.choice(["zz", y[i][0] + "_0001", y[i][0].upper() + "q"]), y[i][1])
+        elif what == "smaller" and y:
+            y.pop(rng.randrange(len(y)))
+        elif what == "larger":
+            y.insert(rng.randint(0, len(y)), ("extra", rseq(rng, "ACGT", L)))
+        elif what in ("twice", "twice-both") and y:
+            # the same name added twice: the container stores the second one under a fresh name (`name_0001`)
+            i = rng.randrange(len(y))
+            d = (y[i][0], rng.choice([y[i][1], rseq(rng, "ACGT", len(y[i][1]))]))
+            y.insert(rng.randint(0, len(y)), d)
+            if what == "twice-both":
+                x = x + [d] if rng.random() < 0.5 else [d] + x
+        elif what.startswith("collide") and len(x) >= 2:
+            # caller-made renames: two rows end up with one name; same residues or not
+            a, b = rng.sample([nm for nm, _ in x], 2)
+            if rng.random() < 0.5:
+                sa = dict(x)[a]
+                x = [(nm, sa if nm == b else sq) for nm, sq in x]
+                y = [(nm, sa if nm == b else sq) for nm, sq in y]
+            ren = [(b, a)]
+            if what in ("collide-x", "collide-both"):
+                mx = ren
+            if what in ("collide-y", "collide-both"):
+                my = ren
+            if what == "collide-x" and rng.random() < 0.6:
+                # the other side: a row named like the merged one, and any other row in place of the second
+                y = [(nm if nm != b else rng.choice(["other", a + "_0001"]), sq) for nm, sq in y]
+        elif what == "length" and y and kind == "B":
+            i = rng.randrange(len(y))
+            y[i] = (y[i][0], y[i][1] + "A")
+        enc = lambda m: "/".join(pct(o) + "/" + pct(nw) for o, nw in m) if m else "_"   # noqa: E731
+        yield Case("identical", [kind, alpha, prow(x), prow(y), enc(mx), enc(my)], len(x) >= 1, "identical-" + what)
+
+
 def gen(rng, tier):
     from driver import multigen
     for c in _gen_core(rng, tier):
+        yield c
+    # `Identical` on pairs of containers: model and naive definition ("same records in any order")
+    for c in gen_identical(rng, 150 if tier == "quick" else 3000):
         yield c
     from driver import cligen
     for c in cligen.cases(rng, ['sort', 'sort-more', 'addid', 'trim', 'rename', 'replace', 'replace-file', 'concat', 'subset'], 40 if tier == "quick" else 400):
